@@ -3,7 +3,9 @@
 # Rebuilds the runner if needed (incremental) and runs one property check
 # against /repo's current working tree.
 set -u
-cd /verif
+ROOT=$(cd "$(dirname "$0")" && pwd)
+cd "$ROOT"
+export VERIF_ROOT="$ROOT"
 export GOFLAGS=-mod=mod GOPROXY=off GOSUMDB=off GOTOOLCHAIN=local CGO_ENABLED=1
 export PATH=/opt/veriftools/go1.26.8/bin:$PATH
 GO=/opt/veriftools/go1.26.8/bin/go
